@@ -142,8 +142,8 @@ func translateValue(v ssa.Value, bind map[*ssa.Parameter]ssa.Value, depth int) s
 // boolHelper returns the static module callee of a call whose single result is a bool and whose body is available.
 func boolHelper(c *ssa.Call) *ssa.Function {
 	fn := c.Common().StaticCallee()
-	if fn == nil || len(fn.Blocks) == 0 || fn.Pkg == nil || fn.Pkg.Pkg == nil || !strings.HasPrefix(fn.Pkg.Pkg.Path(), modPath) {
-		return nil
+	if fn == nil || len(fn.Blocks) == 0 || !strings.HasPrefix(pkgPathOf(fn), modPath) {
+		return nil // (pkgPathOf: an instance of a generic helper belongs to the package of its origin)
 	}
 	res := fn.Signature.Results()
 	if res.Len() != 1 {
